@@ -278,7 +278,7 @@ def run(ctx):
                        "shapes of recorded findings of C03/C08/C10/C18 are excluded by the generators of those checks' rows"]
     n = 12 if quick else 150
     jobs = []
-    for family, kw in (("cf", dict()), ("py", dict(rows=pyfront.PY_ROWS, results=pyfront.PY_RESULTS, types=pyfront.PY_TYPES, ovl_sigs=pyfront.PY_OVL_SIGS)),
+    for family, kw in (("cf", dict()), ("cf", dict(with_class=True, nfunc=(0, 2))), ("py", dict(rows=pyfront.PY_ROWS, results=pyfront.PY_RESULTS, types=pyfront.PY_TYPES, ovl_sigs=pyfront.PY_OVL_SIGS)),
                        ("lua", dict(rows=luafront.LUA_ROWS, results=luafront.LUA_RESULTS, types=luafront.LUA_TYPES, ovl_sigs=xlib.OVL_SIGS_LUA))):
         for lang in (("c++", "c") if family != "lua" else ("c++",)):
             libs = smallgen.sample(xlib.library(lang=lang, for_fortran=True, **kw), ctx.seed + len(jobs), n)
@@ -289,7 +289,7 @@ def run(ctx):
                 if family == "py":
                     from . import c03
                     c03.sanitize(lib)
-                if cfg.get("F_CFI") and any(xlib.has_vector(f) for f in lib["funcs"]):
+                if cfg.get("F_CFI") and xlib.lib_has_vector(lib):
                     cfg = dict(cfg, F_CFI=False)        # recorded known finding: std::vector arguments with F_CFI
                     ctx.exclude_known("probe:vector-with-cfi", 1)
                 jobs.append((len(jobs), lib, family, cfg))
